@@ -7,19 +7,41 @@ import Pyrtma.Proofs.DataLogFiles
 /-!
 # C17 — the data logger loses, duplicates and reorders nothing
 
-Theorems about `Model/DataLog.lean` (the recording/writer handshake of `DataCollection` / `DataSet`) and
-`Model/DataLogFmt.lean` (the formatters and `QLReader.load`).
+Theorems about three models of `src/pyrtma/data_logger/*` and `utils/quicklogger_reader.py`:
 
-Quantification: **every** number of data sets, every selection of message types per data set, every
-sub-division interval and write period, every list of operations of the recording thread
-(`update(msg)`, `update(None)`, `pause()`, `resume()`, each with an arbitrary clock advance, followed by
-`stop()`), and **every schedule** — an arbitrary list over `{R, W}` saying which thread performs its next
-gated operation (event `set/clear/is_set/wait`, buffer swap, `DataSet.write`).  No bound on any of them.
+* **M10f `Model/DataLogFine.lean` — the granularity CPython guarantees** (round 2).  One step = ONE access to
+  an object both threads can reach: an `Event` operation, `Thread.is_alive()`, a read or write of a shared `DataSet`
+  attribute (`wbuf`, `subdivide_flag`, `collection_stopped`, `formatter`, `fd`), one list operation (`append`,
+  `clear`, one `__next__`), one file-system operation (`write`, each element of `writelines`, `seek`, `close`, `open`,
+  `NamedTemporaryFile`, `copyfileobj`).  List and file objects have identity (heap + references in locals); the
+  formatters' call structure is inside the model (plain / csv / quicklogger: passes over the batch, header rewrite,
+  both `finalize` paths, constructor writes); every file-system operation may fail (`Cfg.fault`: an arbitrary
+  predicate on the operation's global number) and raises on a closed file.  **No region is assumed atomic and there
+  is no lock in this code**: that the two events suffice is the theorem `fine_no_swap_under_writer`.
+  Theorems (`section fine`), all for EVERY configuration, operation list, failure pattern and EVERY interleaving of
+  single accesses: `fine_no_loss_no_dup_no_reorder` / `fine_complete_if_done`, `fine_no_swap_under_writer`,
+  `fine_writer_parked_while_recorder_owns`, `fine_loaded_references_current`, `fine_writer_never_dies` (no failure ⇒
+  nothing raises), `fine_failure_is_never_silent` / `fine_told_on_failure`, `fine_stop_waits_only_for_writer`,
+  `fine_stop_terminates_or_hangs`, `fine_stop_returns`, `fine_complete_after_fair_run`,
+  `fine_stop_terminates_patched`; and the defect C17-F3 exhibited: `stop_hangs_after_writer_death`,
+  `writer_death_is_the_only_hang`.
+* **M10 `Model/DataLog.lean` — the gated operations** (round 1; kept: it records the *batches* every file received,
+  which the composition needs, and carries `old_order_loses`, C17-F1): `no_loss_no_dup_no_reorder`,
+  `writer_never_dies`, `no_swap_under_writer`, `stop_waits_only_for_a_busy_writer`, `stop_returns`,
+  `complete_after_fair_run`.
+* **`Model/DataLogFmt.lean` + `Model/DataLogFiles.lean` — the formatters and readers, composed with the handshake**:
+  per format `raw_is_concat`, `raw_reads_back`, `json_lines_decode`, `ql_layout` (file header, message headers,
+  offset table, data block — whatever the partition into `write` calls), `ql_roundtrip`, `ql_file_of_batches`,
+  `ql_empty_file`; composed over whole sessions (every placement of arrivals, flushes, sub-divisions, pause / resume,
+  stop; every schedule; any number of files): `raw_files_read_back`, `ql_files_read_back`, `json_files_read_back`,
+  `json_lines_decode_to_messages`.
 
-What is *not* a theorem (see MANIFEST `level_claimed.text`): that the real threads can only be pre-empted
-at those gated operations; that the real classes behave like the model (differential check,
-`harness/datalog_corr.py`).  Termination of `stop()` is proved for the round-robin continuation the harness
-uses (`stop_returns`), not for an arbitrary fair scheduler.
+What is *not* a theorem (MANIFEST `level_claimed.text`): that the real classes behave like the models — decided
+by the differential check on every run (`harness/datalog_corr.py`, `harness/datalog_fine.py`: same schedule, same
+trace of accesses, same outcome, same files, byte for byte); that attributes outside the gated set are
+thread-local (audited on every run); termination for an arbitrary fair scheduler (proved for round-robin after an
+arbitrary prefix); `Message.from_json ∘ to_json = id` and the byte encodings (opaque `Enc`, hypotheses named); the
+msg_header (csv) formatter's text; more than one `start … stop` session per collection.
 -/
 namespace Pyrtma.C17
 open Pyrtma.DataLog
